@@ -338,6 +338,53 @@ def find_loops(mask, body_open, body_close):
         loops.append((p, ob, cb, m.group(1)))
     return loops
 
+def auto_r10(t, log, label):
+    """R10 (automatic): let-chains, which Verus does not support, are desugared as the Rust reference defines them.
+       `if A && B {body}` (no else, A/B conjuncts of which at least one is a `let`)  ->  `if A { if B {body} }`
+       `while A && B {body}`                                                         ->  `loop { if A { if B { body continue; } } break; }`
+       Only chains that remain after the unit's explicit rewrites are touched; a chain with an `else` is left alone."""
+    for _round in range(40):
+        mask = rust_mask(t.s)
+        done = True
+        for m in re.finditer(r'\b(if|while)\s+let\b', mask):
+            kw = m.group(1); start = m.start()
+            if kw == 'if' and re.search(r'\belse\s*$', mask[:start]): continue
+            ob = find_at_depth0(mask, m.end(), '{')
+            if ob < 0: continue
+            c0 = start + len(kw)
+            # split the condition at `&&` outside (), [] and {}
+            cuts = []; d = 0; j = c0
+            while j < ob:
+                ch = mask[j]
+                if ch in '([{': d += 1
+                elif ch in ')]}': d -= 1
+                elif d == 0 and mask.startswith('&&', j): cuts.append(j); j += 1
+                j += 1
+            if not cuts: continue
+            try: cb = match_brace(mask, ob)
+            except ExtractError: continue
+            if kw == 'if' and re.match(r'\s*else\b', mask[cb + 1:]): continue
+            bounds = [c0] + [c + 2 for c in cuts]; ends = cuts + [ob]
+            conj = [t.s[a:b].strip() for a, b in zip(bounds, ends)]
+            o0 = t.o[start]
+            def T(x): return Txt(x, [o0] * len(x))
+            body = Txt(t.s[ob:cb + 1], t.o[ob:cb + 1])
+            if kw == 'if':
+                pre = ''.join(f"if {c} {{ " for c in conj[:-1]) + f"if {conj[-1]} "
+                post = ' }' * (len(conj) - 1)
+                new = Txt(pre + body.s + post, [o0] * len(pre) + body.o + [o0] * len(post))
+            else:
+                pre = 'loop { ' + ''.join(f"if {c} {{ " for c in conj[:-1]) + f"if {conj[-1]} "
+                inner = Txt(body.s[:-1], body.o[:-1])
+                post = ' continue; }' + ' }' * (len(conj) - 1) + ' break; }'
+                new = Txt(pre + inner.s + post, [o0] * len(pre) + inner.o + [o0] * len(post))
+            before = ' '.join(t.s[start:ob].split())
+            t.splice(start, cb + 1, new)
+            log.append({'rule': 'R10', 'item': label, 'before': before + ' {..}', 'after': ' '.join(pre.split()) + ' {..}' + (' (loop form)' if kw == 'while' else ''), 'count': 1})
+            done = False
+            break
+        if done: return
+
 def transform_item(t: Txt, opts, subs, log, label):
     """apply rewrites + injections to an extracted fn/struct/... text."""
     # ---- replace / sub (on current text) ----
@@ -371,6 +418,7 @@ def transform_item(t: Txt, opts, subs, log, label):
         t.splice(a, a + 3, Txt('|_e|', [t.o[a]] * 4))
     if hits:
         log.append({'rule': 'R8', 'item': label, 'before': '|_|', 'after': '|_e|', 'count': len(hits)})
+    auto_r10(t, log, label)
     mask = rust_mask(t.s)
     inserts = []   # (offset, Txt, order)
     def ins(off, sb, pre='', post='\n'):
@@ -448,8 +496,13 @@ def transform_item(t: Txt, opts, subs, log, label):
                 ins(min(b + 1, len(t.s)), sb, pre='' if b < len(t.s) else '\n', post='\n')
         elif sb.kind == 'loop':
             k, what, hdr_rx, itname = sb.arg
-            if k < 1 or k > len(loops):
+            if k < 1:
                 raise ExtractError(f"{label}: loop {k} not found ({len(loops)} loops)")
+            if k > len(loops):
+                # the loop the contract speaks about is gone (e.g. `while` turned into `if`): its invariant has nothing to attach
+                # to, so it is dropped and the verifier decides the loop-free function against the same pre/postconditions
+                log.append({'rule': 'R3', 'item': label, 'note': f'loop {k} not present ({len(loops)} loops): loop directive {what} skipped'})
+                continue
             p, ob, cb, kw = loops[k-1]
             header = ' '.join(t.s[p:ob].split())
             if what == 'spec':
